@@ -4,7 +4,7 @@ From Coq Require Import List String Bool Arith.
 From Coq Require Import Floats.PrimFloat.
 From PAFCommon Require Import PyFloat.
 From PAFC01 Require Import ModelTree Model Proofs2 Proofs3.
-From PAFC08 Require Import Model Lib Proofs1 Proofs2 Proofs3 Proofs4 Proofs5 Proofs6.
+From PAFC08 Require Import Model Lib Proofs1 Proofs2 Proofs3 Proofs4 Proofs5 Proofs6 Proofs7.
 Import ListNotations.
 Local Open Scope string_scope.
 Local Open Scope list_scope.
@@ -158,3 +158,17 @@ Proof. simpl. repeat split; try discriminate; repeat (constructor; [simpl; intui
 (* the message-id table of C08_db_pinned for the prior-passed example *)
 Example passed_mu : forall p sp, In (p, sp) (occs float w_passed) -> ps_mid float sp = Some ((fun q => if Nat.eqb q 0 then 5 else q) p).
 Proof. intros p sp H. simpl in H. destruct H as [H|[H|[]]]; inversion H; subst; reflexivity. Qed.
+
+(* under the repaired code the former witnesses round-trip *)
+Lemma former_witnesses_fixed :
+  (exists n', db_rt float cfg_fixed w_new = Ok n' /\ prior_count float (tree float n') = 2) /\
+  (exists n', db_rt float cfg_fixed w_passed = Ok n' /\ unique_prior_paths float (tree float n') = unique_prior_paths float (tree float w_passed)) /\
+  (exists n', db_rt float cfg_fixed w_chain = Ok n' /\ snode_eqb n' w_chain = true) /\
+  (exists n', rt_seq float ffalsy cfg_fixed [FPickle; FDb] (g2 (SPrior 0 (gau (Some 0))) (SConst 1%float) []) = Ok n').
+Proof.
+  repeat split; eexists; (split; [vm_compute; reflexivity|vm_compute; reflexivity]) || (vm_compute; reflexivity).
+Qed.
+
+(* hypotheses of C08_round_trip_arith / C08_iter_arith on the model with b = p + q *)
+Example arith_guard2 : guard2 float ffalsy cfg_fixed FDict w_arith = true /\ guard2 float ffalsy cfg_fixed FDb w_arith = true.
+Proof. split; vm_compute; reflexivity. Qed.
